@@ -1,7 +1,7 @@
 ------------------------------ MODULE Objects ------------------------------
 (* Codec objects whose abstract state is their effective call history (properties C12, C13).  *)
 (*                                                                                            *)
-(* An object is  [live, kind, cfg, settings, hist, ehist]:                                    *)
+(* An object is  [live, kind, cfg, settings, base, hist, ehist]:                              *)
 (*   kind      "e" encoder, "d" decoder, "E" multistream encoder, "D" multistream decoder,    *)
 (*             "P" projection decoder                                                         *)
 (*   cfg       what it was created with (rate, channels / layout, application; the run-time   *)
@@ -12,6 +12,11 @@
 (*             and decode calls with all their arguments, and ctl calls made after the first  *)
 (*             such call (a ctl on an object with an empty history only changes `settings`:   *)
 (*             that is what "a newly created one carrying the same settings" means)           *)
+(*   base      the settings that were in force when the history began (<< >> while it is      *)
+(*             empty): the calls in hist were made under base as modified by the ctl entries  *)
+(*             of hist.  (A first version of this module left it out; TLC refuted             *)
+(*             EquivOutputsEqual on Objects_mc with two objects that had made the same calls  *)
+(*             under different settings and then been given the same settings.)               *)
 (*   ehist     hist with the declared-unobservable components erased (see EraseCall)          *)
 (*                                                                                            *)
 (* C12: the output of a call is a function of (kind, cfg, settings, hist, call) and of        *)
@@ -50,7 +55,7 @@ EraseCall(kind, s, c) ==
 
 \* ---- abstract transitions ------------------------------------------------------------------
 Create(kind, cfg) ==
-  [live |-> TRUE, kind |-> kind, cfg |-> cfg, settings |-> NoSettings, hist |-> << >>, ehist |-> << >>]
+  [live |-> TRUE, kind |-> kind, cfg |-> cfg, settings |-> NoSettings, base |-> NoSettings, hist |-> << >>, ehist |-> << >>]
 
 \* a ctl that the library refused is remembered under the negated request number: no claim is
 \* made that a refused ctl leaves the object untouched (that is C11's subject, not C12's)
@@ -64,23 +69,24 @@ Ctl(st, req, v, ok) ==
        ELSE [st EXCEPT !.settings = s2, !.hist = Append(@, c), !.ehist = Append(@, c)]
 
 Call(st, c) ==
-  [st EXCEPT !.hist = Append(@, c), !.ehist = Append(@, EraseCall(st.kind, st.settings, c))]
+  [st EXCEPT !.base = IF st.hist = << >> THEN st.settings ELSE @,
+             !.hist = Append(@, c), !.ehist = Append(@, EraseCall(st.kind, st.settings, c))]
 
-Reset(st) == [st EXCEPT !.hist = << >>, !.ehist = << >>]
+Reset(st) == [st EXCEPT !.base = NoSettings, !.hist = << >>, !.ehist = << >>]
 
 CopyOf(st) == st
 
 \* ---- equivalence and the keys under which outputs are compared ---------------------------
 Equivalent(a, b) ==
   /\ a.live /\ b.live
-  /\ a.kind = b.kind /\ a.cfg = b.cfg /\ a.settings = b.settings /\ a.hist = b.hist
+  /\ a.kind = b.kind /\ a.cfg = b.cfg /\ a.settings = b.settings /\ a.base = b.base /\ a.hist = b.hist
 
 EquivalentModFmt(a, b) ==
   /\ a.live /\ b.live
-  /\ a.kind = b.kind /\ a.cfg = b.cfg /\ a.settings = b.settings /\ a.ehist = b.ehist
+  /\ a.kind = b.kind /\ a.cfg = b.cfg /\ a.settings = b.settings /\ a.base = b.base /\ a.ehist = b.ehist
 
-FullKey(st, c)   == <<st.kind, st.cfg, st.settings, st.hist, c>>
-ErasedKey(st, c) == <<st.kind, st.cfg, st.settings, st.ehist, EraseCall(st.kind, st.settings, c)>>
+FullKey(st, c)   == <<st.kind, st.cfg, st.settings, st.base, st.hist, c>>
+ErasedKey(st, c) == <<st.kind, st.cfg, st.settings, st.base, st.ehist, EraseCall(st.kind, st.settings, c)>>
 
 \* the object a reset one must be indistinguishable from: newly created, then given the settings
 RECURSIVE ApplySettings(_, _, _)
@@ -104,8 +110,10 @@ SampleRelationOK(fmt, e) ==
 \* projection decoder: the 16-bit (and 24-bit) output stays within ProjTol 16-bit units of the float output,
 \* saturated; asserted when no decoded stream sample exceeded +-1 (otherwise the 16-bit path clips the streams
 \* before the matrix and the two outputs legitimately differ by more than rounding).  The rounding of the matrix
-\* products is at most one unit per input channel (<= 8 channels here); ProjTol = 24 leaves a factor of two.
-ProjTol == 24
+\* products is at most one unit per input channel (half a unit for the 16-bit input sample times a coefficient of at
+\* most one, half a unit for the product); the layouts driven here have four input channels, the largest difference
+\* observed on the pinned tree is 4 units, ProjTol = 8 leaves a factor of two (R3).
+ProjTol == 8
 ProjectionOK(fmt, e) ==
   IF fmt = "f32" THEN e.ds = e.sds
   ELSE e.sover = 0 => e.pdiff <= ProjTol
